@@ -12,6 +12,7 @@ class KernelCenterer:
         pass
 
     def fit(self, K, y=None):
+        K = self._validate_data(K)
         self.K_fit_rows_ = np.average(K, axis=0)
         self.K_fit_all_ = np.average(self.K_fit_rows_)
         return self
